@@ -54,7 +54,8 @@ def direct(ctx, out):
     reqs, meta = [], []
     for res in ress:
         thr = gen.threshold(res)
-        for dist in sorted({max(1, thr - 1), max(1, thr), thr + 1, rng.randint(1, 3 * res + 3)}):
+        # also a note written *before* its predecessor in tick order (distance ≤ 0 ≤ threshold: "at most a triplet after" holds)
+        for dist in sorted({max(1, thr - 1), max(1, thr), thr + 1, rng.randint(1, 3 * res + 3), 0, -1, -min(thr + 1, 999), -rng.randint(1, 900)}):
             for pl, cl in itertools.product(LANESETS, LANESETS):
                 if pair_frac < 1 and rng.random() > pair_frac:
                     continue
